@@ -425,7 +425,17 @@ class Fn:
                 env2[nm] = v
             return '(match %s with\n | %s => %s\n | %s => %s end)' % (
                 scrut, pat, self.block(rest, env2, k), '_', fail)
+        if isinstance(value, ast.Call) and U(value.func) == 'time_mod.time' and not value.args and not value.keywords \
+                and isinstance(target, ast.Name):
+            # one reading of the clock: the value now, every later reading through (later ..)
+            R = env['$r'].term
+            env = dict(env)
+            env['$r'] = V('(later %s)' % R, 'req')
+            return self.bind(env, target.id, V('(now2 %s)' % R, 'dbl', R), lambda e2: self.block(rest, e2, k))
         v = self.E(value, env)
+        if v.ty == 'obj' and v.extra.get('$clock'):
+            env = dict(env)
+            env['$r'] = V('(later %s)' % env['$r'].term, 'req')      # AuthTicket() without time= reads the clock
         if isinstance(target, ast.Name):
             return self.bind(env, target.id, v, lambda e2: self.block(rest, e2, k))
         if isinstance(target, ast.Tuple) and all(isinstance(x, ast.Name) for x in target.elts):
@@ -492,6 +502,8 @@ class Fn:
             self.n = saved
             if not arrivals:
                 raise Problem('%s: join without arrivals' % self.name)
+            if len(set(e2['$r'].term for e2 in arrivals)) != 1:
+                raise Problem('%s: the clock is read on only one branch of a conditional' % self.name)
             def get(e2, n):
                 if n in e2:
                     return e2[n]
@@ -513,6 +525,7 @@ class Fn:
             t_then_else = self.cond_core(test, A, B, env, kjoin)
             env2 = dict(env)
             env2.pop('$facts', None)
+            env2['$r'] = arrivals[0]['$r']
             for n in names:                       # compile-time values (dicts ..) must agree to survive
                 if n not in common:
                     vals = [e2.get(n) for e2 in arrivals]
@@ -593,6 +606,8 @@ class Fn:
         retry = {}
 
         def kbody(e2):
+            if e2['$r'].term != envB['$r'].term:
+                raise Problem('%s: the clock is read inside a loop' % self.name)
             args = []
             for n, pn, ty in params:
                 v = e2[n]
@@ -647,6 +662,7 @@ class Fn:
             env[nm] = V(term, ty)
         if self.uses_state:
             env['$st'] = V('st', 'st')
+        env['$r'] = V('r', 'req')            # the request as the clock shows it now (bumped by every clock reading)
         env['$facts'] = set()
         if self.node.decorator_list:
             raise Problem('%s: decorated' % self.name)
@@ -692,8 +708,8 @@ class Tr:
                 v = A(0)
                 if v.ty == 'Z':
                     return v                                              # int(<int>)
-                if v.ty == 'dbl':
-                    return V('(now r)', 'Z')                               # int(time()): floor of the clock
+                if v.ty == 'dbl' and v.extra:
+                    return V('(now %s)' % v.extra, 'Z')                    # int(time()): floor of the clock
             if nm == 'str' and len(args) == 1 and A(0).ty == 'Z':
                 return V('(dec_of_Z %s)' % A(0).term, 'text')             # str(<int>)
             if nm == 'len' and len(args) == 1 and A(0).ty == 'text':
@@ -761,7 +777,7 @@ class Tr:
             if src == 'hashlib.new' and len(args) == 1:
                 return V(None, 'hasher', (A(0).term, None))
             if src == 'time_mod.time' and not args:
-                return V('(now2 r)', 'dbl')                                # the clock, doubled
+                raise Problem('%s: a clock reading must be the whole right side of an assignment' % fn.name)
             if src == 'request.cookies.get' and len(args) == 1 and A(0).term == '(cookie_name c)':
                 return V('(cookie r)', 'otext')
             if src == 'self.userid_type_decoders.get' and len(args) == 1 and A(0).ty == 'text':
@@ -825,7 +841,8 @@ class Tr:
             # AuthTicket(secret, userid, ip, tokens=, user_data=, cookie_name=, secure=, hashalg=): time omitted ->
             # time_mod.time() in the pinned __init__; cookie_name / secure are only stored
             o = {'secret': A(0), 'userid': A(1), 'ip': fn.coerce(A(2), 'ip'), 'tokens': fn.E(kw['tokens'], env),
-                 'user_data': fn.E(kw['user_data'], env), 'hashalg': fn.E(kw['hashalg'], env), 't': V('(Z.to_N (now r))', 'N')}
+                 'user_data': fn.E(kw['user_data'], env), 'hashalg': fn.E(kw['hashalg'], env),
+                 't': V('(Z.to_N (now %s))' % env['$r'].term, 'N'), '$clock': True}
             if o['tokens'].ty != 'texts' or o['userid'].ty != 'text':
                 raise Problem('%s: AuthTicket arguments' % fn.name)
             return V(None, 'obj', o)
@@ -905,7 +922,7 @@ class Tr:
             def mk(target, u=u, ma=ma, tk=tk):
                 st2, hs = fn.fresh('st'), fn.fresh(target.id)
                 env['$st_after'] = V(st2, 'st')
-                return ('(gen_remember c r %s %s %s %s)' % (env['$st'].term, u.term, ma.term, tk.term),
+                return ('(gen_remember c %s %s %s %s %s)' % (env['$r'].term, env['$st'].term, u.term, ma.term, tk.term),
                         '(%s, Some %s)' % (st2, hs), {target.id: V(hs, 'cks'), '$st': V(st2, 'st')}, 'Exception')
             return mk
         return None
